@@ -94,9 +94,12 @@ def iter {α : Type} (f : α → α) : Nat → α → α
 /-- `Simulator.clk(n)` -/
 def clk (d : Design σ) (n : Nat) (s : State σ) : State σ := iter (clkCycle d) n (propagateAll d s)
 
-/-- power-up: every wire 0, nothing prepared; `Simulator.__init__` then runs `propagateAll` -/
-def init (d : Design σ) (st0 : Nat → σ) : State σ :=
-  propagateAll d { val := fun _ => 0, nxt := fun _ => 0, prepared := [], st := st0, clks := 0 }
+/-- power-up: every wire 0, nothing prepared; constructors may `put` initial values (Reg puts its reset value on q:
+    `cons`); `Simulator.__init__` then runs `propagateAll` -/
+def initC (d : Design σ) (st0 : Nat → σ) (cons : List (Nat × Int)) : State σ :=
+  propagateAll d (cons.foldl (putW d) { val := fun _ => 0, nxt := fun _ => 0, prepared := [], st := st0, clks := 0 })
+
+def init (d : Design σ) (st0 : Nat → σ) : State σ := initC d st0 []
 
 /-- what a user can do between observations -/
 inductive Op where
@@ -110,5 +113,9 @@ def applyOp (d : Design σ) (s : State σ) : Op → State σ
   | .resort => s
 
 def run (d : Design σ) (st0 : Nat → σ) (ops : List Op) : State σ := ops.foldl (applyOp d) (init d st0)
+
+/-- a run of a design whose constructors put initial values -/
+def runC (d : Design σ) (st0 : Nat → σ) (cons : List (Nat × Int)) (ops : List Op) : State σ :=
+  ops.foldl (applyOp d) (initC d st0 cons)
 
 end Net
